@@ -178,20 +178,19 @@ def run(ctx):
         # business), the gradient of the documented formula is not the reference for C11: the reference is then the
         # derivative of what the implementation computes (autodiff of k, finite differences of k).
         documented = True
+        orc = {(i, j): node.oracle(X[i], Y[j], grad=True) for i in range(X.shape[0]) for j in range(Y.shape[0])}
         try:
             K = np.asarray(cov(jX, jY))
-            for i in range(X.shape[0]):
-                for j in range(Y.shape[0]):
-                    v, t, _, _, ok = node.oracle(X[i], Y[j])
-                    if ok and np.isfinite(v) and np.isfinite(t) and not (abs(K[i, j] - v) <= t + 32 * W.U * abs(v)):
-                        documented = False
+            for (i, j), (v, t, _, _, ok) in orc.items():
+                if ok and np.isfinite(v) and np.isfinite(t) and not (abs(K[i, j] - v) <= t + 32 * W.U * abs(v)):
+                    documented = False
         except Exception:  # noqa
             documented = False
         if not documented:
             n_undocumented += 1
         # autodiff fallback of the base class (jacfwd of k), on a share of the trees in the quick tier
         AD = None
-        if T or group != "depth2" or tn % 3 == 0 or not documented:
+        if T or group != "depth2" or tn % 4 == 0 or not documented:
             try:
                 AD = np.asarray(bc.Covariance.k_grad(cov, jX)(jY))
                 n_autodiff += 1
@@ -202,7 +201,7 @@ def run(ctx):
         picks = picks[3 - npick:] if npick > 1 else [picks[tn % 3]]
         for i in range(X.shape[0]):
             for j in range(Y.shape[0]):
-                v, t, g, gt, ok = node.oracle(X[i], Y[j], grad=True)
+                v, t, g, gt, ok = orc[(i, j)]
                 r2 = dict(rp, x=X[i].tolist(), y=Y[j].tolist())
                 for c in range(width):
                     if c not in active and KG[i, j, c] != 0.0:
@@ -232,9 +231,10 @@ def run(ctx):
                         if np.isfinite(g0[c]) and np.isfinite(gt0[c]) and np.isfinite(g[c]) and np.isfinite(gt[c]):
                             # analytic gradient against autodiff of the implementation's own k.  Error budget: the analytic
                             # code's bound, the same cancellation bound for the differentiated float program (x4 for its own
-                            # rounding), and the proved dist/(dist+eps) factor (|g - g0|, from the oracle).
+                            # rounding), and the proved dist/(dist+eps) factor (|g - g0|, from the oracle); 1e-7 relative floor because
+                            # the bound for the autodiff program is an estimate (support test), not a derivation.
                             compare("C11|autodiff|%s" % node.shape(), "k_grad differs from jacfwd of the kernel value",
-                                    KG[i, j, c], AD[i, j, c], gt[c] + 4 * gt0[c] + abs(g[c] - g0[c]),
+                                    KG[i, j, c], AD[i, j, c], gt[c] + 16 * gt0[c] + abs(g[c] - g0[c]) + 1e-7 * float(np.max(np.abs(AD[i, j]))),
                                     dict(r2, call="cov.k_grad(x[None])(y[None])[0,0,%d] vs Covariance.k_grad(cov, x[None])(y[None])[0,0,%d]" % (c, c)))
                 if model and (i, j) in picks:
                     cs = [c for c in range(width) if np.isfinite(g[c]) and np.isfinite(gt[c])]
